@@ -8,6 +8,7 @@ require (
 	github.com/dop251/goja v0.0.0-20230812105242-81d76064690d
 	github.com/jf-tech/go-corelib v0.0.14
 	github.com/jf-tech/omniparser v0.0.0
+	golang.org/x/net v0.0.0-20220722155237-a158d28d115b
 	golang.org/x/text v0.3.8
 )
 
